@@ -1483,6 +1483,8 @@ struct ProbeInfo {
     scope: String,
     /// position in program order (locals declared later are not visible)
     seq: usize,
+    /// index of the module the reference is written in
+    module: usize,
 }
 
 /// module paths from `pkg` (including `pkg`), joined with dots
@@ -1535,7 +1537,7 @@ fn probe_infos(p: &Program) -> Sites {
             *seq += 1;
             match s {
                 Stmt::Probe { id, kind, path, form } => {
-                    out.insert(*id, ProbeInfo { ctx: ctx.to_string(), kind: *kind, form, depth, path: path.clone(), scope: scope.to_string(), seq: *seq });
+                    out.insert(*id, ProbeInfo { ctx: ctx.to_string(), kind: *kind, form, depth, path: path.clone(), scope: scope.to_string(), seq: *seq, module: mi });
                 }
                 Stmt::Block(_, inner) => {
                     let id = *next_block;
@@ -1590,7 +1592,7 @@ fn probe_infos(p: &Program) -> Sites {
                     // value probes are observed through the getter `sp<id>()`
                     let getter = format!("{}.sp{id}", mn[mi]);
                     let ctx = if *kind == PKind::Ty { String::new() } else { format!("!{}", getter.strip_prefix("pkg.").unwrap_or(&getter)) };
-                    out.insert(*id, ProbeInfo { ctx, kind: *kind, form, depth: 99, path: path.clone(), scope: mn[mi].clone(), seq: 0 });
+                    out.insert(*id, ProbeInfo { ctx, kind: *kind, form, depth: 99, path: path.clone(), scope: mn[mi].clone(), seq: 0, module: mi });
                 }
                 ItemD::Imports(_) => {}
             }
@@ -1635,6 +1637,55 @@ fn absolute_path_oracle(p: &Program, path: &[usize], kind: PKind) -> Option<Resu
             ItemD::Fn { name, tag, body: None } if *name == path[i] => found = Some((PKind::Fn, *tag)),
             ItemD::Const { name, tag } if *name == path[i] => found = Some((PKind::Const, *tag)),
             ItemD::Ty { name, tag } if *name == path[i] => found = Some((PKind::Ty, *tag)),
+            _ => {}
+        }
+    }
+    match found {
+        None => Some(Err(())),
+        Some((k, tag)) if i + 1 == path.len() && k == kind => Some(Ok(tag)),
+        Some(_) => None,
+    }
+}
+
+/// **Program-level oracle for `super` paths** written in module `mi`:
+/// `super^n.<child modules…>.<item>` climbs `n` modules from the module the
+/// reference is written in, then names direct members only.  Same verdicts as
+/// `absolute_path_oracle`; too many `super`s must be an error.
+fn super_path_oracle(p: &Program, mi: usize, path: &[usize], kind: PKind) -> Option<Result<i64, ()>> {
+    if path.first() != Some(&SUPER) {
+        return None;
+    }
+    let mut cur = mi;
+    let mut i = 0;
+    while i < path.len() && path[i] == SUPER {
+        match p.mods[cur].parent {
+            Some(q) => cur = q,
+            None => return Some(Err(())),
+        }
+        i += 1;
+    }
+    if path[i..].contains(&SUPER) {
+        return Some(Err(()));
+    }
+    while i < path.len() {
+        match children_of(p, cur).into_iter().find(|c| p.mods[*c].ident == path[i]) {
+            Some(c) => {
+                cur = c;
+                i += 1;
+            }
+            None => break,
+        }
+    }
+    if i == path.len() {
+        return None;
+    }
+    let mut found: Option<(PKind, i64)> = None;
+    for it in &p.mods[cur].items {
+        match it {
+            ItemD::Fn { name, tag, body: None } if *name == path[i] => found = Some((PKind::Fn, *tag)),
+            ItemD::Const { name, tag } if *name == path[i] => found = Some((PKind::Const, *tag)),
+            ItemD::Ty { name, tag } if *name == path[i] => found = Some((PKind::Ty, *tag)),
+            ItemD::Fn { name, body: Some(_), .. } if *name == path[i] => return None,
             _ => {}
         }
     }
@@ -1895,7 +1946,27 @@ fn check_variant(rep: &mut Report, drv: &mut Driver, p: &Program, label: &str, i
     let calls: Vec<(usize, String)> = ok_ids.iter().filter(|i| !infos[i].ctx.is_empty()).map(|i| (*i, infos[i].ctx.clone())).collect();
     // every exported function by its path, plus paths that must not exist
     let mut gets: Vec<(String, bool)> = vec![];
-    for (name, tag) in &model.exports {
+    // the exported names are read off the program itself (module path + function name);
+    // the model's export table must say the same
+    let mut exports_prog: BTreeMap<String, i64> = BTreeMap::new();
+    {
+        let mn = module_names(p);
+        for (mi, m) in p.mods.iter().enumerate() {
+            for it in &m.items {
+                if let ItemD::Fn { name, tag, .. } = it {
+                    exports_prog.insert(format!("{}.{}", mn[mi], p.names[*name]), *tag);
+                }
+            }
+        }
+    }
+    let model_script_exports: BTreeMap<String, i64> = model.exports.iter().filter(|(k, _)| k.starts_with("pkg.")).map(|(k, v)| (k.clone(), *v)).collect();
+    if model_script_exports != exports_prog {
+        rep.mismatch(
+            &format!("export table: model {:?} vs program {:?} ({label})", model_script_exports, exports_prog),
+            json!({"case": ident, "variant": label}),
+        );
+    }
+    for (name, tag) in &exports_prog {
         let below = name.strip_prefix("pkg.").unwrap_or(name).to_string();
         if name.starts_with("pkg.") && !below.contains("sp") {
             let is_cx = *tag >= 0 && name.rsplit('.').next().is_some_and(|l| l.starts_with("cx"));
@@ -1920,7 +1991,7 @@ fn check_variant(rep: &mut Report, drv: &mut Driver, p: &Program, label: &str, i
                 let mut d = path.clone();
                 d.push(n.to_string());
                 let dotted = d.join(".");
-                if !model.exports.contains_key(&format!("pkg.{dotted}")) {
+                if !exports_prog.contains_key(&format!("pkg.{dotted}")) {
                     absent.push(dotted);
                 }
             }
@@ -1986,7 +2057,7 @@ fn check_variant(rep: &mut Report, drv: &mut Driver, p: &Program, label: &str, i
     // get_function by module path
     for (path, _) in &gets {
         let got = run.exports.get(path).cloned().unwrap_or(Out::Err("not-run".into()));
-        let want = match model.exports.get(&format!("pkg.{}", path.split('#').next().unwrap_or(path))) {
+        let want = match exports_prog.get(&format!("pkg.{}", path.split('#').next().unwrap_or(path))) {
             Some(t) => Out::Ok(*t),
             None => Out::Err("get_function".into()),
         };
@@ -2085,7 +2156,11 @@ fn check_variant(rep: &mut Report, drv: &mut Driver, p: &Program, label: &str, i
     // 3a. absolute paths against the program itself
     for (id, got) in &res.seen {
         let i = &infos[id];
-        let Some(want) = absolute_path_oracle(p, &i.path, i.kind) else { continue };
+        let (want, which) = match (absolute_path_oracle(p, &i.path, i.kind), super_path_oracle(p, i.module, &i.path, i.kind)) {
+            (Some(w), _) => (w, "absolute-path"),
+            (None, Some(w)) => (w, "super-path"),
+            (None, None) => continue,
+        };
         rep.evaluations += 1;
         let ok = match (&want, got) {
             (Ok(t), Out::Ok(g)) => t == g,
@@ -2097,11 +2172,11 @@ fn check_variant(rep: &mut Report, drv: &mut Driver, p: &Program, label: &str, i
             violate(
                 rep,
                 &format!(
-                    "the absolute path `{}` written in {} resolves to {}; in the program it designates {} ({label})",
+                    "the path `{}` written in {} resolves to {}; in the program it designates {} ({label})",
                     path_str(&i.path, &p.names), i.scope, got.show(),
                     match want { Ok(t) => format!("the item with tag {t}"), Err(()) => "nothing (not a member)".to_string() }
                 ),
-                &format!("absolute-path:{}", match want { Ok(_) => "wrong-or-unresolved", Err(()) => "resolves-nonmember" }),
+                &format!("{which}:{}", match want { Ok(_) => "wrong-or-unresolved", Err(()) => "resolves-nonmember" }),
                 json!({"case": ident, "variant": label, "probe": id, "sources": sources_json(p, &keep_ok, &tags)}),
             );
         }
